@@ -111,6 +111,36 @@ pub proof fn lemma_repair_pair(old_seg: Seq<AsmLine>, new_seg: Seq<AsmLine>, m: 
         assert(find_lab(new_seg, 4, l) == -1);
     }
 }
+// a repair keeps A-targets: labels are never removed, and the inserted branches target labels inserted with them
+pub open spec fn seg_targets_local(seg: Seq<AsmLine>) -> bool { forall|k: int| 0 <= k < seg.len() && is_cbl(#[trigger] seg[k]) ==> has_label(seg, opnd(seg[k])) }
+pub proof fn lemma_targets_preserved(old: Seq<AsmLine>, new: Seq<AsmLine>, pos: int, remove: int, seg: Seq<AsmLine>)
+    requires
+        targets_defined(old), 0 <= pos, 0 <= remove, pos + remove <= old.len(),
+        new =~= old.subrange(0, pos) + seg + old.subrange(pos + remove, old.len() as int),
+        forall|k: int| pos <= k < pos + remove ==> !((#[trigger] old[k]) is Label),
+        seg_targets_local(seg),
+    ensures targets_defined(new)
+{
+    let d = seg.len() - remove;
+    assert forall|p: int| 0 <= p < new.len() && is_cbl(#[trigger] new[p]) implies has_label(new, opnd(new[p])) by {
+        if p < pos || p >= pos + seg.len() {
+            let q = if p < pos { p } else { p - d };           // the same line in the old code
+            assert(new[p] == old[q]);
+            assert(is_cbl(old[q]));
+            let j = choose|j: int| 0 <= j < old.len() && is_lab(#[trigger] old[j], opnd(old[q]));
+            let j2 = if j < pos { j } else { j + d };
+            assert(j < pos || j >= pos + remove);
+            assert(new[j2] == old[j]);
+            assert(is_lab(new[j2], opnd(new[p])));
+        } else {
+            let k = p - pos;
+            assert(new[p] == seg[k]);
+            let j = choose|j: int| 0 <= j < seg.len() && is_lab(#[trigger] seg[j], opnd(seg[k]));
+            assert(new[pos + j] == seg[j]);
+            assert(is_lab(new[pos + j], opnd(new[p])));
+        }
+    }
+}
 pub open spec fn fix_label(n: u32) -> Seq<char> { ".fix"@ + dec(n as int) }
 pub open spec fn fixup_label(n: u32) -> Seq<char> { ".fixup"@ + dec(n as int) }
 pub proof fn fix_labels_differ(n: u32)
@@ -164,7 +194,6 @@ def build(repo):
              assumptions=[
                  "A-targets: every conditional branch's label is defined in the same code vector (precondition; C13's label obligation for the generator is not proved)",
                  "A-cb-bounded: spliced `assume` at the head of the repair loop: the function is < 1 Gi lines / 2 GiB and fewer than 2^31 repairs happen (termination of check_branches is not proved, so growth cannot be bounded deductively; a 6502 function is < 64 KiB)",
-                 "A-targets-preserved: targets_defined is re-assumed at the head of the repair loop (its preservation by a repair is not proved)",
                  "A-fixfresh: the repair's equivalence is stated under the hypothesis that the branch's own label differs from the fresh .fixN/.fixupN labels (no user label is spelled .fixN)",
                  "A-fmt: format!(\".fix{}\", n) is \".fix\" followed by the decimal digits of n",
                  "termination of check_branches is not proved (R9: exec_allows_no_decreases_clause)",
@@ -193,10 +222,10 @@ def build(repo):
     # loop 1: while restart
     cb.loop_spec(1, r"^while restart$", """
             invariant !restart ==> all_in_range(self.code@, self.code@.len() as int), //@ C03:range-outer
+                targets_defined(self.code@), //@ C03,C13:repair-keeps-targets-defined
 """)
     cb.after(r"while restart\s+invariant[^{]*\{", """
             assume(cb_bounded(self.code@, nb_fixes)); // A-cb-bounded
-            assume(targets_defined(self.code@)); // A-targets-preserved
             let ghost code0 = self.code@;
 """)
     # loop 2: scan
@@ -275,6 +304,20 @@ def build(repo):
                     // the fresh label is defined exactly where the inverted branch expects it: last line of the segment
                     assert(is_lab(new_seg[new_seg.len() - 1], fix_label(nb_fixes))); //@ C03,C13:labels-fix-defined
                     assert(find_lab(new_seg, 0, fix_label(nb_fixes)) == new_seg.len() - 1); //@ C03,C13:labels-fix-once
+                }
+""")
+    cb.after_stmt(r"self\.code\.append\(&mut tail\)", """
+                proof {
+                    let new_seg = self.code@.subrange(position as int, self.code@.len() - (old_len - position - remove));
+                    assert(seg_targets_local(new_seg)) by {
+                        assert(is_lab(new_seg[new_seg.len() - 1], fix_label(nb_fixes)));
+                        assert forall|k: int| 0 <= k < new_seg.len() && is_cbl(#[trigger] new_seg[k]) implies has_label(new_seg, opnd(new_seg[k])) by {
+                            if opnd(new_seg[k]) == fix_label(nb_fixes) { assert(is_lab(new_seg[new_seg.len() - 1], opnd(new_seg[k]))); }
+                            else { assert(new_seg.len() == 5 && is_lab(new_seg[2], opnd(new_seg[k]))); }
+                        }
+                    }
+                    assert forall|k: int| position <= k < position + remove implies !((#[trigger] old_code[k]) is Label) by { }
+                    lemma_targets_preserved(old_code, self.code@, position as int, remove as int, new_seg);
                 }
 """)
     text = common.PRELUDE + common.header_comment(NAME, cuts) + "verus! {\n" + op.text + "\n" + types + common.SUM_SPECS + common.DEC_SPECS + SPECS + fm.text() + \
